@@ -434,7 +434,11 @@ func (e *kvElection) becomeLeader(token string, rev uint64) {
 	termCtx, termCancel := context.WithCancel(e.ctx)
 	e.termCancel = termCancel
 
-	if e.onPromote != nil {
+	// OnPromote may be registered concurrently: the callback goroutine below uses
+	// the value read here, under the mutex.
+	onPromote := e.onPromote
+
+	if onPromote != nil {
 		log.Info("leader_promoted",
 			append(e.logWithContext(e.ctx),
 				zap.String("token", token),
@@ -455,7 +459,7 @@ func (e *kvElection) becomeLeader(token string, rev uint64) {
 			}()
 			promoteCtx, cancel := context.WithCancel(termCtx)
 			defer cancel()
-			e.onPromote(promoteCtx, token)
+			onPromote(promoteCtx, token)
 		}()
 	}
 }
@@ -632,13 +636,18 @@ func (e *kvElection) Stop() error {
 	case <-time.After(5 * time.Second):
 	}
 
-	if wasLeader && e.onDemote != nil {
+	// OnDemote may be registered concurrently: read the callback under the mutex.
+	e.mu.RLock()
+	onDemote := e.onDemote
+	e.mu.RUnlock()
+
+	if wasLeader && onDemote != nil {
 		log.Info("leader_demoted",
 			append(e.logWithContext(e.ctx),
 				zap.String("reason", "stop"),
 			)...,
 		)
-		e.onDemote()
+		onDemote()
 	}
 
 	return nil
@@ -755,7 +764,12 @@ func (e *kvElection) StopWithContext(ctx context.Context, opts StopOptions) erro
 		}
 	}
 
-	if wasLeader && e.onDemote != nil {
+	// OnDemote may be registered concurrently: read the callback under the mutex.
+	e.mu.RLock()
+	onDemote := e.onDemote
+	e.mu.RUnlock()
+
+	if wasLeader && onDemote != nil {
 		log := e.getLogger()
 		log.Info("leader_demoted",
 			append(e.logWithContext(ctx),
@@ -763,10 +777,6 @@ func (e *kvElection) StopWithContext(ctx context.Context, opts StopOptions) erro
 				zap.Bool("wait_for_demote", opts.WaitForDemote),
 			)...,
 		)
-
-		e.mu.RLock()
-		onDemote := e.onDemote
-		e.mu.RUnlock()
 
 		if onDemote != nil {
 			if opts.WaitForDemote {
